@@ -833,7 +833,8 @@ def _force_trigger_tasks(
 
     # Satisfy any off-group prerequisites in removed tasks.
     tasks_removed = inactive
-    if active_to_remove:
+    if active_to_remove and flow != [FLOW_NONE]:
+        # (no-flow: these were not removed, they are still in the pool)
         tasks_removed.update(active_to_remove)
 
     # for tdef, point in tasks_removed:
